@@ -1124,7 +1124,14 @@ func (g *gen) defineChain(fx *fctx, pl chainPlan, i int, underPcall, nested bool
 		}
 	}
 	ce.mk = func(c2 *fctx) *Expr { cx.callerFn = c2; return callExpr }
-	fexp := func() *Expr { return &Expr{K: "func", Fn: f} }
+	fexp := func() *Expr {
+		fe := &Expr{K: "func", Fn: f}
+		if kind != "inline" && g.r.Chance(25) { // a parenthesised function expression: linedefined is still the keyword's line
+			g.classes["parenfunc"] = true
+			return paren(fe)
+		}
+		return fe
+	}
 
 	switch kind {
 	case "inline":
